@@ -63,8 +63,8 @@ func VerifC13_settlement() {
 		paid = []math.Int{p0, S.Sub(p0)}
 	}
 	fromBond := []bool{ndBool("fromBond0"), ndBool("fromBond1")}
-	results := []types.VoteResult{types.VoteResult_INVALID, types.VoteResult_SUPPORT, types.VoteResult_AGAINST, types.VoteResult_NO_QUORUM_MAJORITY_INVALID, types.VoteResult_NO_QUORUM_MAJORITY_SUPPORT, types.VoteResult_NO_QUORUM_MAJORITY_AGAINST}
-	res := results[ndPick("result", 3+3*ndTier())]
+	results := []types.VoteResult{types.VoteResult_INVALID, types.VoteResult_SUPPORT, types.VoteResult_AGAINST, types.VoteResult_NO_QUORUM_MAJORITY_SUPPORT, types.VoteResult_NO_QUORUM_MAJORITY_INVALID, types.VoteResult_NO_QUORUM_MAJORITY_AGAINST}
+	res := results[ndPick("result", 4+2*ndTier())]
 	hasVoters := ndBool("hasVoters")
 	d := vDispute(id, hash)
 	d.DisputeStatus = types.Resolved
